@@ -43,6 +43,14 @@ func genC24(seed uint64, tier string) *Case {
 		switch x := g.Intn(20); {
 		case x < 1:
 			c.Steps = append(c.Steps, Step{Op: "close"}, Step{Op: "conn"})
+		case x < 2:
+			// a pipelining client: several requests written in one piece, replies read
+			// afterwards (x: 0 handshake, 1 auth with the right key, 2 members, 3 stats)
+			s := Step{Op: "pipe"}
+			for k := 0; k < 2+g.Intn(4); k++ {
+				s.X = append(s.X, g.Pick(0, 1, 2, 2, 3, 3))
+			}
+			c.Steps = append(c.Steps, s)
 		case x < 3 || i == hs:
 			c.Steps = append(c.Steps, Step{Op: "req", S: "handshake", K: g.Pick(0, 0, 0, 1, 4)})
 		case x < 6:
@@ -95,6 +103,97 @@ func execC24(r *Run) {
 			continue
 		}
 		if cl == nil || dead {
+			continue
+		}
+		if s.Op == "pipe" {
+			var cmds []string
+			var seqs []uint64
+			var bodies []any
+			hsk := handshaken // predicted gate state, to keep bodies of refused requests out of the stream
+			for _, x := range s.X {
+				cmd := []string{"handshake", "auth", "members", "stats"}[x%4]
+				if cmd == "auth" && !hsk {
+					continue
+				}
+				var body any
+				switch cmd {
+				case "handshake":
+					body = map[string]any{"Version": 1}
+					hsk = true
+				case "auth":
+					body = map[string]any{"AuthKey": "secret"}
+				}
+				seq++
+				cmds, seqs, bodies = append(cmds, cmd), append(seqs, seq), append(bodies, body)
+			}
+			if len(cmds) == 0 {
+				continue
+			}
+			before := as.snapshot()
+			cl.sendBatch(cmds, seqs, bodies)
+			c.Advance(time.Second)
+			recs := cl.take(&cursor)
+			r.Fault("pipelined-requests")
+			r.NonTrivial = true
+			r.Logf("pipe %v seqs=%v -> %v closed=%v", cmds, seqs, recs, cl.closed)
+			for i, cmd := range cmds {
+				allowed := cmd == "handshake" || (handshaken && (authKey == "" || authed || cmd == "auth"))
+				var hdr *ipcRecord
+				hasBody := false
+				for k := range recs {
+					if recs[k].header && recs[k].seq == seqs[i] {
+						hdr = &recs[k]
+						hasBody = k+1 < len(recs) && !recs[k+1].header
+						break
+					}
+				}
+				if hdr == nil {
+					if !allowed {
+						r.Fail("rejected-command-without-error-reply", "C24 no-error-reply", "pipelined command %q (seq %d, request %d of %v) sent %s got no error reply (records: %v)", cmd, seqs[i], i+1, cmds, gateName(handshaken, authKey, authed), recs)
+					} else {
+						r.Fail("pipelined-command-unanswered", "C24 pipelined-unanswered", "pipelined command %q (seq %d, request %d of %v) got no reply (records: %v)", cmd, seqs[i], i+1, cmds, recs)
+					}
+					return
+				}
+				if !allowed {
+					r.Probe("command-before-handshake-or-auth")
+					if hdr.err == "" || hasBody {
+						r.Fail("unauthorised-command-returned-data", "C24 data", "pipelined command %q sent %s was answered with %v (body follows: %v)", cmd, gateName(handshaken, authKey, authed), *hdr, hasBody)
+						return
+					}
+					if !handshaken {
+						// the agent hangs up on a client that skips the handshake: what was
+						// pipelined behind the refused command is never looked at
+						for k := range recs {
+							if recs[k].header && recs[k].seq > seqs[i] && recs[k].err == "" {
+								r.Fail("unauthorised-command-returned-data", "C24 data", "a command pipelined behind %q, refused for the missing handshake, was answered: %v", cmd, recs)
+								return
+							}
+						}
+						dead = true
+						break
+					}
+				} else if hdr.err == "" {
+					switch cmd {
+					case "handshake":
+						handshaken = true
+					case "auth":
+						authed = true
+					default:
+						if !hasBody {
+							r.Fail("accepted-command-without-data", "C24 pipelined-no-data", "pipelined command %q was accepted (seq %d) but no result record follows its header (records: %v)", cmd, seqs[i], recs)
+							return
+						}
+					}
+				}
+			}
+			if after := as.snapshot(); after != before {
+				r.Fail("unauthorised-command-took-effect", "C24 effect", "pipelined read-only commands %v changed the agent state %s -> %s", cmds, before, after)
+				return
+			}
+			if cl.closed {
+				dead = true
+			}
 			continue
 		}
 		seq++
